@@ -250,93 +250,108 @@ func c16hist(c *Ctx) {
 	}
 	c.exh = true
 	idx := 0
-	// events: 0 open(e1) 1 open(e2) 2 search(h0) 3 search(h1) 4 close(h0) 5 close(h1) 6 expire 7 filtered-search(h0)
-	evNames := []string{"open(e1)", "open(e2)", "search(h0)", "search(h1)", "close(h0)", "close(h1)", "expire", "fsearch(h0)"}
-	for a := 0; a < len(sets); a++ {
-		for bb := 0; bb < len(sets); bb++ {
-			if a == bb {
-				continue
-			}
-			pair := [2]int{a, bb}
-			var seq []int
-			var rec func(open [2]bool, depth int)
-			run := func() {
-				idx++
-				if !c.Mine(idx) {
-					return
+	// events: 0 open(e1) 1 open(e2) 2 search(h0) 3 search(h1) 4 close(h0) 5 close(h1) 6 expire 7 filtered-search(h0) 8 filtered-search(h1)
+	evNames := []string{"open(e1)", "open(e2)", "search(h0)", "search(h1)", "close(h0)", "close(h1)", "expire", "fsearch(h0)", "fsearch(h1)"}
+	// fmode: which slots are opened with requiresFiltering (a filtered search needs such a handle)
+	fmodes := [][2]bool{{true, false}, {false, true}, {true, true}}
+	for fm, filt := range fmodes {
+		for a := 0; a < len(sets); a++ {
+			for bb := 0; bb < len(sets); bb++ {
+				if a == bb {
+					continue
 				}
-				s := ""
-				for _, e := range seq {
-					s += evNames[e] + " "
+				if fm > 0 && !c.Thorough() && (a+bb)%2 == 0 {
+					continue // quick tier: the extra filter modes on half of the pairs
 				}
-				id := fmt.Sprintf("H-%s-%s-%v", names[a], names[bb], seq)
-				if !c.Case(id, map[string]interface{}{"e1": names[a], "e2": names[bb], "events": s}) {
-					return
-				}
-				defer c.End()
-				c16run(c, id, path, field, vm, m, sets, pair, seq, vq, vqf)
-				c.R.Inc("c16_histories", 1)
-				c.DistinctN(1)
-				if idx%3000 == 1 {
-					c.Sample(map[string]interface{}{"e1": names[a], "e2": names[bb], "events": s})
-				}
-			}
-			rec = func(open [2]bool, depth int) {
-				if depth > 0 {
-					run()
-				}
-				if depth == maxLen {
-					return
-				}
-				for e := 0; e < len(evNames); e++ {
-					no := open
-					switch e {
-					case 0, 1:
-						// a new handle goes to the first free slot
-						slot := -1
-						if !open[0] {
-							slot = 0
-						} else if !open[1] {
-							slot = 1
-						}
-						if slot < 0 {
-							continue
-						}
-						no[slot] = true
-					case 2, 7:
-						if !open[0] {
-							continue
-						}
-					case 3:
-						if !open[1] {
-							continue
-						}
-					case 4:
-						if !open[0] {
-							continue
-						}
-						no[0] = false
-					case 5:
-						if !open[1] {
-							continue
-						}
-						no[1] = false
-					case 6:
-						if depth == 0 {
-							continue
-						}
+				pair := [2]int{a, bb}
+				var seq []int
+				var rec func(open [2]bool, depth int)
+				run := func() {
+					idx++
+					if !c.Mine(idx) {
+						return
 					}
-					seq = append(seq, e)
-					rec(no, depth+1)
-					seq = seq[:len(seq)-1]
+					s := ""
+					for _, e := range seq {
+						s += evNames[e] + " "
+					}
+					id := fmt.Sprintf("H-%s-%s-f%d-%v", names[a], names[bb], fm, seq)
+					if !c.Case(id, map[string]interface{}{"e1": names[a], "e2": names[bb], "filtering_slots": filt, "events": s}) {
+						return
+					}
+					defer c.End()
+					c16run(c, id, path, field, vm, m, sets, pair, seq, vq, vqf, filt)
+					c.R.Inc("c16_histories", 1)
+					c.DistinctN(1)
+					if idx%3000 == 1 {
+						c.Sample(map[string]interface{}{"e1": names[a], "e2": names[bb], "events": s})
+					}
 				}
+				rec = func(open [2]bool, depth int) {
+					if depth > 0 {
+						run()
+					}
+					if depth == maxLen {
+						return
+					}
+					for e := 0; e < len(evNames); e++ {
+						no := open
+						switch e {
+						case 0, 1:
+							// a new handle goes to the first free slot
+							slot := -1
+							if !open[0] {
+								slot = 0
+							} else if !open[1] {
+								slot = 1
+							}
+							if slot < 0 {
+								continue
+							}
+							no[slot] = true
+						case 2:
+							if !open[0] {
+								continue
+							}
+						case 7:
+							if !open[0] || !filt[0] {
+								continue
+							}
+						case 3:
+							if !open[1] {
+								continue
+							}
+						case 8:
+							if !open[1] || !filt[1] {
+								continue
+							}
+						case 4:
+							if !open[0] {
+								continue
+							}
+							no[0] = false
+						case 5:
+							if !open[1] {
+								continue
+							}
+							no[1] = false
+						case 6:
+							if depth == 0 {
+								continue
+							}
+						}
+						seq = append(seq, e)
+						rec(no, depth+1)
+						seq = seq[:len(seq)-1]
+					}
+				}
+				rec([2]bool{}, 0)
 			}
-			rec([2]bool{}, 0)
 		}
 	}
 }
 
-func c16run(c *Ctx, id, path, field string, vm *model.VecModel, m *model.Seg, sets []map[uint32]bool, pair [2]int, seq []int, vq, vqf vecQuery) {
+func c16run(c *Ctx, id, path, field string, vm *model.VecModel, m *model.Seg, sets []map[uint32]bool, pair [2]int, seq []int, vq, vqf vecQuery, filt [2]bool) {
 	r := c.R
 	guard(r, id, func() {
 		seg, err := zx.Open(path)
@@ -356,7 +371,7 @@ func c16run(c *Ctx, id, path, field string, vm *model.VecModel, m *model.Seg, se
 					slot = 1
 				}
 				ex := sets[pair[e]]
-				idx, err := vs.InterpretVectorIndex(field, slot == 0, bmOf(ex, step%3 == 0)) // slot 0 may run filtered searches
+				idx, err := vs.InterpretVectorIndex(field, filt[slot], bmOf(ex, step%3 == 0))
 				if err != nil || idx == nil {
 					r.Fail("vec-open-err", "%s: %v", tag, err)
 					return
@@ -366,13 +381,13 @@ func c16run(c *Ctx, id, path, field string, vm *model.VecModel, m *model.Seg, se
 					r.Inc("c16_reload_after_eviction", 1)
 					evicted = false
 				}
-			case 2, 3, 7:
+			case 2, 3, 7, 8:
 				h := hs[0]
-				if e == 3 {
+				if e == 3 || e == 8 {
 					h = hs[1]
 				}
 				q := vq
-				if e == 7 {
+				if e >= 7 {
 					q = vqf
 				}
 				got, ok := searchHandle(r, tag, h.idx, q)
@@ -513,7 +528,7 @@ func c19(c *Ctx) {
 		var bs []*model.Batch
 		nb := 1
 		if mergeCase {
-			nb = 2 + rng.Intn(2)
+			nb = 2 + rng.Intn(3)
 		}
 		for l := 0; l < nb; l++ {
 			cl := []string{"small", "mid", "one"}[rng.Intn(3)]
@@ -617,8 +632,16 @@ func c19merge(c *Ctx, id string, rng *rand.Rand, bs []*model.Batch) {
 		ins = append(ins, s)
 	}
 	var drops []map[uint32]bool
-	for _, m := range ms {
-		drops = append(drops, randDrops(rng, m.NumDocs, 3))
+	for k, m := range ms {
+		d := randDrops(rng, m.NumDocs, 3)
+		if len(ms) >= 3 && k < len(ms)-2 && rng.Intn(2) == 0 {
+			// an input whose vectors are all obsolete: it is skipped, not loaded
+			d = map[uint32]bool{}
+			for x := uint64(0); x < m.NumDocs; x++ {
+				d[uint32(x)] = true
+			}
+		}
+		drops = append(drops, d)
 	}
 	mm, _ := model.Merge(ms, drops)
 	bm := zx.Drops(drops, nil)
